@@ -54,6 +54,10 @@ def main():
             p = subprocess.run(["/verif/run.sh", m["prop"], a.tier] + m.get("args", []), cwd="/verif", env=env2, stdout=subprocess.PIPE, stderr=subprocess.STDOUT, text=True, timeout=3600)
             res["check_exit"] = p.returncode
             res["detected"] = p.returncode == 1 and "VIOLATION property=" + m["prop"] in p.stdout
+            if m.get("expect_silent"):
+                # a harmless change: the check must stay quiet
+                res["expect_silent"] = True
+                res["detected"] = p.returncode == 0
             res["wall_s"] = round(time.time() - t0, 1)
             keys = [l.strip() for l in p.stdout.splitlines() if l.strip().startswith("key=")]
             res["keys"] = keys[:6]
